@@ -276,6 +276,14 @@ func (x *Exec) doCall(fr *frame, st *State, instr ssa.CallInstruction, c *ssa.Ca
 					o.st.callRes = map[ssa.CallInstruction][]smt.T{}
 				}
 				o.st.callRes[instr] = o.results
+				if o.st.callArgs == nil {
+					o.st.callArgs = map[ssa.CallInstruction][]smt.T{}
+				}
+				as := args
+				if (c.IsInvoke() || c.Signature().Recv() != nil) && len(as) > 0 {
+					as = as[1:]
+				}
+				o.st.callArgs[instr] = as
 			}
 		}
 	}
